@@ -28,6 +28,11 @@ def gen_cases(ctx):
         chunks = [order[k:k + CHUNK] for k in range(0, len(order), CHUNK)]
         if ctx.tier == "quick":
             chunks = chunks[::2] if inpkg else chunks[1::2]
+            # parameters named like the template's own locals decide whether a callback sees the call's value or a shadowing local: always all of them
+            have = {k for ch in chunks for k in ch}
+            loc = [k for k in order if cat[k]["feature"].startswith("ident.template-local") and k not in have]
+            if inpkg:
+                chunks += [loc[k:k + CHUNK] for k in range(0, len(loc), CHUNK)]
         for ch in chunks:
             for rep in range(1 if ctx.tier == "quick" else 3):
                 u = [None, True, False][ci % 3]
